@@ -73,3 +73,18 @@ def var_parser(p):
 
 def inv_true():
     return True
+
+
+def macro_application_arguments_contract(p, kinds):
+    """`m(arg, arg, ...)` from its tokens: every argument -- an expression or a `{ ... }` code block, in ANY position and any mix -- becomes one entry of the
+    application's argument list, in the order written; the whole statement is consumed."""
+    from a816.parse.ast.nodes import BlockAstNode, ExpressionAstNode, MacroApplyAstNode
+    from a816.parse.parser_states import parse_decl
+    a = parse_decl(p)
+    check("a_macro_application", isinstance(a, MacroApplyAstNode) and a.name == "m")
+    check("one_entry_per_argument", len(a.args) == len(kinds))
+    i = 0
+    for k in kinds:
+        check("argument_kinds_in_the_order_written", isinstance(a.args[i], BlockAstNode if k == "block" else ExpressionAstNode))
+        i = i + 1
+    check("whole_statement_consumed", p.pos == len(p.tokens) - 1)
